@@ -540,6 +540,10 @@ func DefNode(d *Def, curNs string, ch Chooser) (*YNode, *YNode) {
 					sw := YMap()
 					cases := YMap()
 					for _, sc := range c.Switch.Cases {
+						if sc.Pattern == "null" {
+							cases.PutK(nullNode(), exprNode(sc.Expr)) // the null pattern, not the string "null"
+							continue
+						}
 						cases.Put(sc.Pattern, exprNode(sc.Expr))
 					}
 					tk := YS(c.Switch.Target)
